@@ -3,6 +3,7 @@ package main
 import (
 	"fmt"
 	"math/rand"
+	"regexp"
 	"strings"
 
 	. "github.com/reeflective/readline/verifx/internal/sess"
@@ -27,6 +28,9 @@ func outcome(tr Trace) string {
 	}
 	return sb.String()
 }
+
+var feedsKeys = regexp.MustCompile("[\\x1b\\x18][A-Z]|\\x18e")
+var feedsKeysVi = regexp.MustCompile("@")
 
 func init() {
 	build := func(c *Case) {
@@ -72,7 +76,26 @@ func init() {
 				if strings.Contains(a, "[panic]") || strings.Contains(b, "[panic]") || a == "hang" || b == "hang" {
 					kind = "crash-differs" // one delivery crashes: C01's business, different signature
 				}
-				return []Finding{{"C05", kind + "/" + c.Specs[0].Mode + "/" + c.Meta["how"],
+				// In a local keymap (incremental search, completion menu) of the Emacs mode an ESC alone in its
+				// read cancels the mode, as in the Vi modes: deliveries that differ in what follows an ESC byte
+				// in its read are told apart by timing there too. Tagged, so that it is one known finding.
+				tag := ""
+				if c.Specs[0].Mode == "emacs" && strings.Contains(unhex(c.Keys), "\x1b") {
+					for _, tr := range trs {
+						for _, w := range tr.Waits {
+							if w.Local != "" {
+								tag = "/esc-with-local-keymap"
+							}
+						}
+					}
+				}
+				// Keys fed by a command (do-lowercase-version on M-<uppercase> and C-x <uppercase>, a keyboard macro)
+				// are dispatched after the type-ahead that was read together with the key that fed them: also
+				// tagged as one known finding.
+				if tag == "" && (feedsKeys.MatchString(unhex(c.Keys)) || (c.Specs[0].Mode == "vi" && feedsKeysVi.MatchString(unhex(c.Keys)))) {
+					tag = "/fed-keys-with-type-ahead"
+				}
+				return []Finding{{"C05", kind + "/" + c.Specs[0].Mode + "/" + c.Meta["how"] + tag,
 					fmt.Sprintf("key-per-read: %s\n%s: %s", a, c.Meta["how"], b), c}}
 			}
 			return nil
